@@ -198,7 +198,7 @@ def run(ctx):
         n_proc += 1
         b = cfg.body(r)
         ctx.analysed_fns.add(p)
-        out_param = [i for i in range(1, b.argc + 1) if b.local_name(i) == "out"]
+        out_param = [i for i in range(1, b.argc + 1) if b.local_ty(i).startswith("&mut ") and "Vec<u8>" in b.local_ty(i)][:1]     # process(self, cols, input, out, meta_out)
         writers_, bad = [], []
         for bi, t in b.calls():
             for a, ty in zip(t.get("args", []), t.get("argtys", [])):
